@@ -3,8 +3,8 @@ CONSTANT MaxThreads = 2
 CONSTANT MaxTasks = 2
 CONSTANT MaxOps = 3
 CONSTANT MaxSpawn = 3
-CONSTANT FlagUnderMutex = TRUE
+CONSTANT FlagUnderMutex = FALSE
 CONSTANT AllowSpurious = FALSE
-INVARIANTS TypeOK NoDeadlockB PoolBounded C08Quiescent QueueConsistent AllDestroyedAtEnd MutexOK NoRace
+INVARIANTS TypeOK NoRace
 CONSTRAINT SpawnBound
 CHECK_DEADLOCK FALSE
